@@ -24,6 +24,19 @@ def _valid_target(sdef, act):
     return act is not None and act[0] in ("next", "now") and act[1] in sdef
 
 
+def _is_seq(act):
+    return act is not None and act[0] == "seq"
+
+
+def _nows(sdef, act):
+    """number of explicit next_state_now() calls (with an existing target) the state function made"""
+    if act is None:
+        return 0
+    if act[0] == "seq":
+        return sum(1 for x in act[1] if x[0] == "now" and x[1] in sdef)
+    return 1 if act[0] == "now" and act[1] in sdef else 0
+
+
 def check(prop, cfg, history, exact):
     sdef = {s["name"]: s for s in cfg["states"]}
     if prop == "C01":
@@ -68,8 +81,10 @@ def _c01(prop, cfg, sdef, history):
                 if regular and not engaged and (not prev_exec or ext_stop):
                     _fail(prop, "ran_after_stop", h,
                           f"state {c[1]} ran without engage() although the machine had stopped")
-            if last_ctl == "engage":
-                nows = sum(1 for c in calls if c[6] is not None and c[6][0] == "now" and c[6][1] in sdef)
+            # (several actions in one call, one of which stopped the machine: what the remaining ones do is not stated)
+            opaque = (any(_is_seq(c[6]) for c in calls) and _has_done(h)) or h.get("raised")
+            if last_ctl == "engage" and not opaque:
+                nows = sum(_nows(sdef, c[6]) for c in calls)
                 if len(calls) != 1 + nows:
                     _fail(prop, "one_state_per_iteration", h,
                           f"engage() was called and done() was not: expected exactly {1 + nows} state function call(s), got {[c[1] for c in calls]}")
@@ -147,8 +162,8 @@ def _c02(prop, cfg, sdef, history, exact):
             a = c[3]
             st = sdef[c[1]]
             act = c[6]
-            transition = act is not None and (act[0] == "done" or (act[0] in ("next", "now") and act[1] in sdef))
-            nested_parent_acted = any(cc[6] is not None and cc[6][0] in ("next", "done") for cc in calls[:-1])
+            transition = act is not None and (act[0] in ("done", "seq") or (act[0] in ("next", "now") and act[1] in sdef))
+            nested_parent_acted = any(cc[6] is not None and cc[6][0] in ("next", "done", "seq") for cc in calls[:-1])
             if st["kind"] == "timed" and not transition and not nested_parent_acted:
                 if a["initial_call"] is True:
                     d = c[5]
@@ -336,6 +351,12 @@ def _c13(prop, cfg, sdef, history, exact):
             if not ever:
                 continue
             calls = _calls(h)
+            stopped = False
+            for e in h["ev"]:
+                if e[0] == "DONE":
+                    stopped = True
+                elif e[0] == "CALL" and stopped and sdef[e[1]]["kind"] != "default" and not sdef[e[1]].get("must_finish"):
+                    _fail(prop, "ran_after_done", h, f"state {e[1]} ran after done() had been called in the same iteration")
             if not active:
                 if calls:
                     _fail(prop, "ran_after_end", h, f"state function(s) {[c[1] for c in calls]} ran after the run had ended (no on_enable since)")
